@@ -164,8 +164,8 @@ func (e *Env) Finish() {
 	o.Digest = e.Run.Digest()
 	if o.Trace == nil {
 		ev := e.Run.Events()
-		if len(ev) > 400 {
-			ev = ev[len(ev)-400:]
+		if len(ev) > 6000 {
+			ev = append(append([]string(nil), ev[:3000]...), ev[len(ev)-3000:]...)
 		}
 		o.Trace = ev
 	}
